@@ -46,3 +46,7 @@ Definition run_case (c : list route * option route * list Z) : list Z :=
   map (fun d => match find_best routes dflt d with
                 | Some r => r_hop r
                 | None => -2 end) ds.
+(* driver for the host next-hop rule: (interface ip, mask, gateway, destinations) -> next-hop address per destination (-2: none) *)
+Definition run_hops (c : Z * Z * option Z * list Z) : list Z :=
+  let '(ip, mask, gw, ds) := c in
+  map (fun d => match host_next_hop {| i_ip := ip; i_mask := mask; i_up := true |} gw d with Some h => h | None => -2 end) ds.
